@@ -36,6 +36,8 @@ type backend struct {
 	// probe returns a backend-specific problem observed by the fake (e.g. eventually consistent reads), or ""
 	probe func() string
 	close func()
+	// fail arms the back end's own fault injection (reads, writes); nil when the back end cannot fail
+	fail func(reads, writes int)
 }
 
 var v1sess = awssession.Must(awssession.NewSession(aws.NewConfig().WithRegion("us-west-2")))
@@ -53,7 +55,8 @@ func backends() []func() backend {
 			case sqlmini.Oracle:
 				ms = persistence.NewSQLMetastore(h, persistence.WithSQLMetastoreDBType(persistence.Oracle))
 			}
-			return backend{name: "sql-" + string(d), ms: ms, probe: func() string { return "" }, close: func() { h.Close(); db.Drop() }}
+			return backend{name: "sql-" + string(d), ms: ms, probe: func() string { return "" }, close: func() { h.Close(); db.Drop() },
+				fail: func(rd, wr int) { db.SetFailReads(rd); db.SetFailWrites(wr) }}
 		}
 	}
 	ddbv1 := func(table string, suffix bool) func() backend {
@@ -68,7 +71,7 @@ func backends() []func() backend {
 				opts = append(opts, v1p.WithTableName(table))
 			}
 			ms := v1p.NewDynamoDBMetastore(v1sess, opts...)
-			return backend{name: fmt.Sprintf("dynamodb-v1/table=%s/suffix=%v", name, suffix), ms: ms, close: func() {},
+			return backend{name: fmt.Sprintf("dynamodb-v1/table=%s/suffix=%v", name, suffix), ms: ms, close: func() {}, fail: t.SetFail,
 				probe: func() string {
 					if t.Inconsistent > 0 {
 						return fmt.Sprintf("%d read(s) were issued without ConsistentRead", t.Inconsistent)
@@ -92,7 +95,7 @@ func backends() []func() backend {
 			if err != nil {
 				panic(err)
 			}
-			return backend{name: fmt.Sprintf("dynamodb-v2/table=%s/suffix=%v", name, suffix), ms: ms, close: func() {},
+			return backend{name: fmt.Sprintf("dynamodb-v2/table=%s/suffix=%v", name, suffix), ms: ms, close: func() {}, fail: t.SetFail,
 				probe: func() string {
 					if t.Inconsistent > 0 {
 						return fmt.Sprintf("%d read(s) were issued without ConsistentRead", t.Inconsistent)
@@ -379,6 +382,9 @@ func TestC13(t *testing.T) {
 	r.Exhaustive(true)
 	r.Extra("exhaustive_length", L)
 
+	// (b2) faults inside the back end: a failed read is an error, never "no such record"; a failed write is not a success
+	backendFaults(r)
+
 	// (c) concurrent histories, linearizability per id
 	concurrent(t, r)
 	r.Finish(t)
@@ -597,3 +603,58 @@ func concurrent(t *testing.T, r *ev.Run) {
 }
 
 var _ = sql.ErrNoRows
+
+
+// backendFaults stores records, then makes the back end itself fail reads / writes (connection trouble, service
+// errors) and checks that the metastore reports an error: a stored record must never be reported absent, a write
+// that did not happen must never be reported as stored, and once the fault is gone everything is as before.
+func backendFaults(r *ev.Run) {
+	ctx := context.Background()
+	for _, mk := range backends() {
+		b := mk()
+		if b.fail == nil {
+			b.close()
+			continue
+		}
+		kind := strings.SplitN(b.name, "/", 2)[0]
+		for i := 0; i < 40; i++ {
+			id := fmt.Sprintf("fault-%d", i)
+			want := &appencryption.EnvelopeKeyRecord{Created: int64(1700000000 + i), EncryptedKey: []byte(fmt.Sprintf("k-%d", i)), ParentKeyMeta: &appencryption.KeyMeta{ID: "_SK_s_p", Created: 1}}
+			if ok, err := b.ms.Store(ctx, id, want.Created, want); !ok {
+				r.Violation("store-fresh-key-refused:"+kind, fmt.Sprintf("backend %s: %v", b.name, err), nil)
+				continue
+			}
+			r.Eval(1)
+			b.fail(1, 0)
+			got, err := b.ms.Load(ctx, id, want.Created)
+			if err == nil && got == nil {
+				r.Violation("read-fault-reported-as-absent:"+kind, fmt.Sprintf("backend %s: Load of a stored record during a back-end read failure returned (nil, nil) - the record is reported absent instead of an error", b.name), nil)
+			} else if err == nil {
+				if d := world.DiffEKR(want, got); d != "" {
+					r.Violation("load-wrong-record:"+kind, fmt.Sprintf("backend %s: %s", b.name, d), nil)
+				}
+			}
+			b.fail(1, 0)
+			got, err = b.ms.LoadLatest(ctx, id)
+			if err == nil && got == nil {
+				r.Violation("read-fault-reported-as-absent:"+kind, fmt.Sprintf("backend %s: LoadLatest of a stored id during a back-end read failure returned (nil, nil)", b.name), nil)
+			}
+			b.fail(0, 0)
+			if got, err := b.ms.Load(ctx, id, want.Created); err != nil || world.DiffEKR(want, got) != "" {
+				r.Violation("load-after-fault:"+kind, fmt.Sprintf("backend %s: after the fault was gone Load returned (%v, %v)", b.name, got, err), nil)
+			}
+			// a write that fails in the back end must not be reported as stored, and must not have happened
+			id2 := id + "-w"
+			b.fail(0, 1)
+			ok, _ := b.ms.Store(ctx, id2, want.Created, want)
+			b.fail(0, 0)
+			got2, _ := b.ms.Load(ctx, id2, want.Created)
+			if ok && got2 == nil {
+				r.Violation("failed-write-reported-stored:"+kind, fmt.Sprintf("backend %s: Store returned true although the back end rejected the write", b.name), nil)
+			}
+			r.Count("backend_fault_cases", 1)
+			r.Distinct(fmt.Sprintf("fault|%s|%d", b.name, i))
+		}
+		b.close()
+	}
+}
